@@ -192,6 +192,49 @@ func TestVerifC10SM4(t *testing.T) {
 						r.Eval(fmt.Sprintf("%s|open|%s|pt[%s]", pn, sh.name, kernelClass(len(c.pt))))
 					}
 				}
+				// ---------------- every prefix length 0..200 on the reallocation path (cap too small) and with room
+				if ci%hk.N(12, 3) == 0 {
+					for pl := 0; pl <= 200; pl++ {
+						for _, room := range []bool{false, true} {
+							capTotal := pl
+							if room {
+								capTotal = pl + len(sealed) + 3
+							}
+							backing := make([]byte, capTotal)
+							for i := range backing {
+								backing[i] = byte(0x3C ^ i)
+							}
+							dst := backing[:pl:capTotal]
+							prefix := append([]byte{}, dst...)
+							var out []byte
+							p, msg, _, _ := hk.Try(func() { out = a.Seal(dst, gNonce.B, gPt.B, gAad.B) })
+							if p || !bytes.Equal(out, append(append([]byte{}, prefix...), sealed...)) {
+								d := c.detail()
+								d["prefix_len"], d["room"], d["panic"], d["got_prefix"] = pl, room, msg, hk.Hex(out[:min(len(out), pl)])
+								r.Violation(fmt.Sprintf("seal-result-not-dst+output:%s:prefix-sweep:room=%v", pn, room), d)
+							}
+							capO := pl
+							if room {
+								capO = pl + len(c.pt) + 3
+							}
+							backing2 := make([]byte, capO)
+							for i := range backing2 {
+								backing2[i] = byte(0x5A ^ i)
+							}
+							dst2 := backing2[:pl:capO]
+							prefix2 := append([]byte{}, dst2...)
+							var pt []byte
+							var oerr error
+							p, msg, _, _ = hk.Try(func() { pt, oerr = a.Open(dst2, gNonce.B, gCt.B, gAad.B) })
+							if p || oerr != nil || !bytes.Equal(pt, append(append([]byte{}, prefix2...), c.pt...)) {
+								d := c.detail()
+								d["prefix_len"], d["room"], d["panic"], d["err"] = pl, room, msg, fmt.Sprint(oerr)
+								r.Violation(fmt.Sprintf("open-result-not-dst+output:%s:prefix-sweep:room=%v", pn, room), d)
+							}
+						}
+						r.Eval(fmt.Sprintf("%s|prefix-sweep|len%%64=%d", pn, pl%64))
+					}
+				}
 				// ---------------- in-place idioms
 				{
 					buf := make([]byte, len(c.pt), len(c.pt)+c.tag+rng.Intn(3))
@@ -275,3 +318,10 @@ func whichBuf(addr uintptr, m map[string]*hk.GBuf) string {
 	return "elsewhere"
 }
 
+
+func min(a, b int) int {
+	if a < b {
+		return a
+	}
+	return b
+}
